@@ -1213,7 +1213,7 @@ def run(ctx):
             if counter["n"] % 6 == 0:
                 jax.clear_caches()
 
-    ctx.run_hypothesis(case_strategy(focus, 2), chk, ctx.pick(6, 36), salt="main")
+    ctx.run_hypothesis(case_strategy(focus, 2), chk, ctx.pick(5, 30), salt="main")
     ctx.extra["z_tests"] = STATS["z_tests"]
     ctx.extra["z_escalations"] = STATS["escalations"]
     ctx.extra["perkey_checks"] = STATS["perkey_checks"]
